@@ -61,6 +61,10 @@ def _families(tier):
     f_s = [[{n: v for n, v in t[0].items() if v}, t[1]] for t in f_s]
     f_g = [t for t in grids.terms(["y", "z"], [-1, -0.5, 0.5, 1], [1])]
     yield ("frac", [[t] for t in f_s], list(grids.lists_upto(f_g, 2, minlen=2)), [["y", "z"]])
+    # two-step chains: the eliminated variable is bounded only through a second eliminated variable (tactic 4 recursion)
+    c2_s = [[{"x": 1, "y": cy}, 1] for cy in (-1, 1, 2, -2)]
+    c2_g = [[[{"y": a, "z": b}, c1], [{"z": d}, c2]] for a in (-2, -1, 1, 2) for b in (-2, -1, 1, 2) for d in (-1, 1) for c1 in (0, 2) for c2 in (0, 2)]
+    yield ("chain2", [[t] for t in c2_s], c2_g + [list(reversed(g)) for g in c2_g[::3]], [["y", "z"]])
     yield ("core", [[t] for t in s_terms], list(grids.lists_upto(g_terms, 1)), [["y"], ["y", "z"]])
     yield ("g2", [[t] for t in s_terms], list(grids.lists_upto(g_terms, 2, minlen=2)), [["y"], ["y", "z"]])
     # other constants, other eliminated sets
@@ -93,7 +97,7 @@ def cases(tier, seed):
     sl = seed % NSLICES
     k = 0
     for c in _cases_all():
-        if tier == "thorough" or c["fam"] in ("core", "perm", "kayk", "kayk3", "frac"):
+        if tier == "thorough" or c["fam"] in ("core", "perm", "kayk", "kayk3", "frac", "chain2"):
             yield c
         else:
             k += 1
